@@ -291,9 +291,19 @@ func (c *compiler) compileType(y *Type, parent Leafable, isUnion bool) error {
 		resolvedMeta := Find(parent, y.path)
 		if resolvedMeta == nil {
 			return fmt.Errorf("%s - %s path cannot be resolved", SchemaPath(parent), y.ident)
-		} else {
-			y.delegate = resolvedMeta.(HasType).Type()
 		}
+		target, isLeaf := resolvedMeta.(Leafable)
+		if !isLeaf || target.Type() == nil {
+			return fmt.Errorf("%s - %s path does not lead to a leaf or leaf-list", SchemaPath(parent), y.ident)
+		}
+		if target.Type() != y {
+			// target may be further along in the schema or in an imported module that isn't
+			// otherwise compiled, either way we need its final type
+			if err := c.compileType(target.Type(), target, false); err != nil {
+				return err
+			}
+		}
+		y.delegate = target.Type()
 	} else {
 		y.delegate = y
 	}
